@@ -57,13 +57,13 @@ SIZES_QUICK = {
     'T3': [(2, 2, 2), (2, 2, 3), (2, 3, 2), (3, 2, 2), (3, 3, 3), (2, 3, 4)],
     'P3': [(2, 2, 2), (1, 2, 3), (2, 1, 1), (3, 2, 2), (2, 3, 2), (3, 3, 3), (2, 3, 4)],
     'RP3': [(2, 2, 2), (1, 2, 3), (2, 1, 1), (3, 3, 3), (3, 4, 2), (4, 3, 3), (2, 3, 4)],
-    'RT3': [(2, 2, 2), (2, 4, 3), (4, 2, 2)],
+    'RT3': [(2, 2, 2), (2, 4, 3), (4, 2, 2), (2, 3, 2), (3, 4, 2), (4, 4, 3)],
 }
 SIZES_THOROUGH = {
     'T3': [(4, 4, 4), (4, 2, 3), (3, 4, 5), (5, 2, 2)],
     'P3': [(4, 4, 4), (4, 2, 3), (1, 1, 2), (3, 4, 5), (5, 1, 2)],
     'RP3': [(4, 4, 4), (5, 5, 3), (4, 2, 3), (3, 5, 2), (1, 1, 2), (6, 3, 2)],
-    'RT3': [(4, 4, 2), (2, 3, 2), (3, 2, 2), (4, 6, 3)],
+    'RT3': [(4, 4, 2), (3, 2, 2), (4, 6, 3), (5, 2, 3), (4, 3, 1), (2, 2, 1), (6, 5, 2)],
 }
 
 
@@ -307,9 +307,11 @@ def run_cases(ctx, quick_only=False):
     # documented witness of the old assignment bug (D9)
     cases.append(('T3', (2, 2, 2), (3, 21), (), '', 32, 'witness-D9'))
     # exhaustive weight <= 2 Z errors on the smallest lattices
-    ex = [('T3', (2, 2, 2)), ('P3', (2, 2, 2)), ('RP3', (2, 2, 2)), ('RP3', (3, 3, 2)), ('RT3', (2, 2, 2))]
+    ex = [('T3', (2, 2, 2)), ('P3', (2, 2, 2)), ('RP3', (2, 2, 2)), ('RP3', (3, 3, 2)), ('RT3', (2, 2, 2)),
+          ('RT3', (2, 3, 2))]
     if ctx.thorough:
-        ex += [('T3', (2, 2, 3)), ('P3', (3, 2, 2)), ('P3', (2, 3, 3)), ('RP3', (3, 3, 3)), ('RP3', (2, 3, 4))]
+        ex += [('T3', (2, 2, 3)), ('P3', (3, 2, 2)), ('P3', (2, 3, 3)), ('RP3', (3, 3, 3)), ('RP3', (2, 3, 4)),
+               ('RT3', (3, 2, 2)), ('RT3', (2, 4, 2)), ('RT3', (3, 4, 2))]
     scripts = ['', '1', '2', '012', '2101']
     for tag, size in ex:
         n = make_code(tag, size).n
@@ -325,10 +327,10 @@ def run_cases(ctx, quick_only=False):
     rnd = [('T3', (2, 2, 2)), ('T3', (3, 3, 3)), ('T3', (2, 3, 4)), ('T3', (3, 2, 2)),
            ('P3', (3, 3, 3)), ('P3', (2, 3, 4)), ('P3', (3, 2, 2)),
            ('RP3', (3, 3, 3)), ('RP3', (3, 4, 2)), ('RP3', (4, 3, 3)), ('RP3', (2, 3, 4)),
-           ('RT3', (2, 2, 2)), ('RT3', (2, 4, 3))]
+           ('RT3', (2, 2, 2)), ('RT3', (2, 4, 3)), ('RT3', (3, 4, 2)), ('RT3', (4, 4, 3)), ('RT3', (2, 3, 2))]
     if ctx.thorough:
         rnd += [('T3', (4, 4, 4)), ('T3', (4, 2, 3)), ('P3', (4, 4, 4)), ('RP3', (5, 5, 3)), ('RP3', (4, 4, 4)),
-                ('RT3', (4, 4, 2)), ('RT3', (2, 3, 2))]
+                ('RT3', (4, 4, 2)), ('RT3', (5, 2, 3)), ('RT3', (4, 6, 3)), ('RT3', (6, 5, 2))]
     reps = 6 if ctx.thorough else 2
     for tag, size in rnd:
         n = make_code(tag, size).n
@@ -356,7 +358,7 @@ def decode_streams(ctx):
         init = guarded(lambda: bits(dec.get_initial_state(syn)))
         inp = {'code': CODE_NAME[tag], 'size': list(size), 'error_z': list(zs), 'error_x': list(xs),
                'script': script, 'param': param}
-        s_init.add(f'sw.init {spec(tag, size)} {bits(syn)}', init, inp, nontrivial=bool(zs or xs), tag=tag)
+        s_init.add(f'sw.init {DEC_OF[tag]} {spec(tag, size)} {bits(syn)}', init, inp, nontrivial=bool(zs or xs), tag=tag)
         result, steps, rng = traced_decode(dec, syn, script)
         for i, st in enumerate(steps):
             sub = script_slice(script, st['pos_in'], len(script))
@@ -384,9 +386,10 @@ def direct_move_stream(ctx):
     rng = ctx.np_rng(303)
     s = Stream('sweep_move-direct-arbitrary-states')
     targets = [('T3', (2, 2, 2)), ('T3', (3, 3, 3)), ('T3', (2, 3, 4)), ('P3', (3, 3, 3)), ('P3', (2, 3, 2)),
-               ('RP3', (3, 3, 3)), ('RP3', (4, 3, 3)), ('RP3', (2, 3, 4)), ('RT3', (2, 2, 2)), ('RT3', (2, 4, 3))]
+               ('RP3', (3, 3, 3)), ('RP3', (4, 3, 3)), ('RP3', (2, 3, 4)), ('RT3', (2, 2, 2)), ('RT3', (2, 4, 3)),
+               ('RT3', (3, 4, 2)), ('RT3', (2, 3, 2))]
     if ctx.thorough:
-        targets += [('T3', (4, 4, 4)), ('P3', (4, 4, 4)), ('RP3', (5, 5, 3)), ('RT3', (4, 4, 2))]
+        targets += [('T3', (4, 4, 4)), ('P3', (4, 4, 4)), ('RP3', (5, 5, 3)), ('RT3', (4, 4, 2)), ('RT3', (5, 2, 3))]
     reps = 8 if ctx.thorough else 3
     for tag, size in targets:
         code = make_code(tag, size)
@@ -411,7 +414,8 @@ def direct_move_stream(ctx):
                            'sweep_direction': list(sd) if sd else None, 'script': script},
                           nontrivial=bool(signs.any()), tag=f'{tag}-dens{dens}')
     # exhaustive weight<=2 errors x all 8 directions, one step from the initial state (rotated decoder)
-    for tag, size in [('RP3', (2, 2, 2)), ('RP3', (3, 3, 2))] + ([('RP3', (3, 3, 3))] if ctx.thorough else []):
+    for tag, size in [('RP3', (2, 2, 2)), ('RP3', (3, 3, 2)), ('RT3', (2, 2, 2)), ('RT3', (2, 3, 2))] + \
+            ([('RP3', (3, 3, 3)), ('RT3', (3, 4, 2))] if ctx.thorough else []):
         code = make_code(tag, size)
         dec = make_dec(tag, size)
         for w in (1, 2):
@@ -445,8 +449,42 @@ def table_stream(ctx):
     return s.run()
 
 
+def wrap_stream(ctx):
+    """`RotatedSweepDecoder3D._wrap`, `get_sweep_faces`, `get_sweep_edges` (the seam repair of D10) against
+    `wrapRot`, `sweepFacesRot`, `sweepEdgesRot`: every vertex x the eight sweep directions, locations around
+    and across the seams, on both classes of the rotated decoder."""
+    s = Stream('rotated-wrap-sweep-faces-edges')
+    rng = ctx.np_rng(505)
+    for tag in ('RP3', 'RT3'):
+        for size in sizes(ctx, tag):
+            code = make_code(tag, size)
+            dec = make_dec(tag, size)
+            sp = spec(tag, size)
+            Lx, Ly, Lz = size
+            inp = {'code': CODE_NAME[tag], 'size': list(size)}
+            locs = [(x, y, z) for x in (-3, -1, 0, 1, 2, 2 * Lx - 1, 2 * Lx, 2 * Lx + 1, 2 * Lx + 2, 4 * Lx + 1)
+                    for y in (-2, 0, 1, 2 * Ly, 2 * Ly + 1, 2 * Ly + 3) for z in (0, 1, 2 * Lz)]
+            for loc in locs:
+                s.add(f'sw.wrap {sp} {loc_s(loc)}', guarded(lambda: loc_s(dec._wrap(loc))),
+                      {**inp, 'location': list(loc), 'what': '_wrap'}, tag=f'{tag}-wrap',
+                      nontrivial=(tag == 'RT3'))
+            verts = [v for v in code.stabilizer_coordinates if code.stabilizer_type(v) == 'vertex']
+            verts += [tuple(int(c) for c in code.stabilizer_coordinates[int(i)])
+                      for i in rng.integers(0, code.n_stabilizers, 4)] + [(0, 0, 0), (1, 2 * Ly, 1)]
+            for v in verts:
+                for sd in SWEEP_DIRS:
+                    def go():
+                        F = dec.get_sweep_faces(v, sd)
+                        E = dec.get_sweep_edges(v, sd)
+                        return ';'.join(loc_s(f) for f in F) + ' ' + ';'.join(loc_s(e) for e in E)
+                    s.add(f'sw.sweep {sp} {loc_s(v)} {loc_s(sd)}', guarded(go),
+                          {**inp, 'vertex': [int(c) for c in v], 'sweep_direction': list(sd),
+                           'what': 'get_sweep_faces + get_sweep_edges'}, tag=f'{tag}-sweep')
+    return s.run()
+
+
 def correspondence(ctx):
-    streams = [lattice_stream(ctx), flip_stream(ctx), table_stream(ctx), site_stream(ctx)]
+    streams = [lattice_stream(ctx), flip_stream(ctx), table_stream(ctx), site_stream(ctx), wrap_stream(ctx)]
     streams += decode_streams(ctx)
     streams.append(direct_move_stream(ctx))
     return streams
@@ -482,11 +520,16 @@ def check_case(case):
             dec.flip_edge(loc, signs)
             want = face_syndrome(code, error_vec(code, [code.qubit_index[loc]]))
             if case.get('rows') == 'as-decoder':
-                # the hypothesis as the MODEL states it (flipTableOK): face rows = the rows the decoder does not
-                # blank in get_initial_state (`signs[z_indices] = 0`); differs from the rows of type 'face' only on
-                # the mixed X/Z generators of the defect lines of odd-sized RotatedToric3DCode
+                # the hypothesis as the MODEL states it: face rows = the rows the decoder does not blank in
+                # get_initial_state.  SweepDecoder3D (flipTableOK): `signs[z_indices] = 0`;
+                # RotatedSweepDecoder3D (flipTableOKRot): the rows whose stabilizer_type is 'vertex' are blanked,
+                # i.e. face rows = rows of type 'face' - the oracle's own notion (the two notions differ only on
+                # the mixed X/Z generators of the defect lines of odd-sized RotatedToric3DCode)
                 syn = np.array(code.measure_syndrome(error_vec(code, [code.qubit_index[loc]]))).astype(int).reshape(-1)
-                want = syn * (1 - np.asarray(code.z_indices).astype(int))
+                if DEC_OF[tag] == 's3':
+                    want = syn * (1 - np.asarray(code.z_indices).astype(int))
+                else:
+                    want = syn * face_rows(code).astype(int)
             got = np.array(signs).astype(int)
             if not np.array_equal(got, want):
                 return (f'flip_edge({loc}) toggles stabilizer rows {np.nonzero(got)[0].tolist()} but the face '
@@ -556,6 +599,26 @@ def case_key(c):
     return {'decoder': DEC_NAME[DEC_OF[c['code']]], 'code': CODE_NAME[c['code']], 'what': WHAT[c['kind']]}
 
 
+def regression_corpus():
+    """Inputs of the former finding D10 (RotatedSweepDecoder3D had no periodic seam on RotatedToric3DCode:
+    8 of the 10 edges of the 2x2x2 lattice toggled the wrong faces), repaired by `_wrap`; they must pass.
+    Plus the defect lines of odd sizes, where `get_initial_state` used to blank a face generator that
+    carries Z letters (`z_indices`)."""
+    cases = []
+    for edge in [(1, 1, 1), (1, 1, 3), (1, 3, 1), (1, 3, 3), (3, 1, 1), (3, 1, 3), (2, 4, 2), (4, 2, 2),
+                 (3, 3, 1), (3, 3, 3)]:
+        cases.append({'kind': 'geom', 'code': 'RT3', 'size': [2, 2, 2], 'edge': list(edge)})
+    for q in range(10):
+        for script in ('', '21'):
+            cases.append({'kind': 'run', 'code': 'RT3', 'size': [2, 2, 2], 'error_z': [q], 'error_x': [],
+                          'script': script, 'param': 2})
+    for size, n in (((2, 3, 2), 15), ((3, 2, 2), 15)):
+        for q in range(n):
+            cases.append({'kind': 'run', 'code': 'RT3', 'size': list(size), 'error_z': [q],
+                          'error_x': [(q + 1) % n, (q + 4) % n], 'script': '102', 'param': 1})
+    return cases
+
+
 def oracle_cases(ctx, deep):
     rng = ctx.np_rng(404)
     cases = []
@@ -569,13 +632,12 @@ def oracle_cases(ctx, deep):
             code = make_code(tag, size)
             for loc in code.qubit_coordinates:
                 cases.append({'kind': 'geom', 'code': tag, 'size': list(size), 'edge': [int(v) for v in loc]})
+    cases += regression_corpus()
     for tag, size, zs, xs, script, param, label in run_cases(C):
-        if tag == 'RT3':
-            continue     # the rotated-toric seam is reported through the geometry cases (known finding D10)
         cases.append({'kind': 'run', 'code': tag, 'size': list(size), 'error_z': list(zs), 'error_x': list(xs),
                       'script': script, 'param': param})
     for tag, size in [('T3', (2, 2, 2)), ('T3', (3, 3, 3)), ('P3', (3, 3, 3)), ('RP3', (3, 3, 3)),
-                      ('RP3', (4, 3, 3))]:
+                      ('RP3', (4, 3, 3)), ('RT3', (2, 2, 2)), ('RT3', (2, 4, 3)), ('RT3', (3, 4, 2))]:
         code = make_code(tag, size)
         m = code.n_stabilizers
         face = face_rows(code)
